@@ -581,13 +581,15 @@ fn matcher_checks(cx: &mut Ctx, b: &Built, o: &Opts, hays: &[Vec<u8>], extra_wor
         cx.rep.branch("lt:none");
     }
     // line_terminator(): withheld iff the HIR has haystack anchors
-    let anchors = has_look(hir, &|l| matches!(l, Look::Start | Look::End));
+    // withheld for haystack anchors, and for CRLF-aware line anchors when `crlf` is off
+    let anchors = has_look(hir, &|l| matches!(l, Look::Start | Look::End))
+        || (!o.crlf && has_look(hir, &|l| matches!(l, Look::StartCRLF | Look::EndCRLF)));
     let expect_lt = if anchors { None } else { cfg_lt };
     if b.matcher.line_terminator() != expect_lt || b.parts.line_terminator != expect_lt {
         cx.bad("impl_vs_model", "", "ConfiguredHIR::line_terminator", format!("line_terminator() = {:?}, expected {:?} for {}", b.matcher.line_terminator(), expect_lt, sx));
     }
     if anchors {
-        cx.rep.branch("lt:withheld-haystack-anchor");
+        cx.rep.branch("lt:withheld-anchor");
     }
     // (b) declared non-matching bytes = model
     let nm: Vec<u8> = {
@@ -625,6 +627,7 @@ fn matcher_checks(cx: &mut Ctx, b: &Built, o: &Opts, hays: &[Vec<u8>], extra_wor
             }
         }
     }
+    let model_vol = cx.drv.ask(&format!("c11.verify {} {}", cfg_sx(o), sx)) == "1";
     // --- F: the property on generated buffers
     let word = if extra_word { word_table_sx() } else { "(word)" };
     let (mut any_match, mut any_nonmatch) = (false, false);
@@ -671,6 +674,15 @@ fn matcher_checks(cx: &mut Ctx, b: &Built, o: &Opts, hays: &[Vec<u8>], extra_wor
                 None => 0,
             }
         };
+        if lits.is_none() {
+            if let Some(k) = cand {
+                let is_cand = matches!(k, LineMatchKind::Candidate(_));
+                if is_cand != model_vol {
+                    cx.bad("impl_vs_model", "", "build_many verify_on_line / find_candidate_line vs Model.RegexConfig.{verifyOnLine, findCandidateLine}", format!("no literal regex: find_candidate_line answered {:?}, model verify_on_line = {} (HIR {})", k, model_vol, sx));
+                }
+                cx.rep.branch(if is_cand { "cand:verify-on-line" } else { "cand:confirmed-own-anchors-only" });
+            }
+        }
         match (first, cand) {
             (Some((s, _)), None) => {
                 cx.bad("impl_vs_spec", "", TIE_F, format!("find_candidate_line found nothing but {:?} has a match at {} (pattern HIR {}, literals {})", show(hay), s, sx, inner));
@@ -1027,7 +1039,8 @@ fn config_checks(cx: &mut Ctx, c: &Case, built: &Option<Built>, err: &Option<Str
             // ok lt=… nm=… lits=… ask1=… ask2=…
             let parts: Option<(&str, &str, &str)> = (|| {
                 let r = rest.strip_prefix("lt=")?;
-                let (lt, r) = r.split_once(" nm=")?;
+                let (lt, r) = r.split_once(" vol=")?;
+                let (_vol, r) = r.split_once(" nm=")?;
                 let (nm, r) = r.split_once(" lits=")?;
                 let (lits, _) = r.split_once(" ask1=")?;
                 Some((lt, nm, lits))
